@@ -1,13 +1,13 @@
 package interp
 
 import (
-	"sort"
 	"bytes"
 	"encoding/json"
 	"fmt"
 	"go/token"
 	"go/types"
 	"reflect"
+	"sort"
 	"strings"
 )
 
@@ -27,7 +27,6 @@ func valOfBytes(b []byte) value {
 	}
 	return s
 }
-
 
 func jsonField(st *types.Struct, i int) (name string, skip bool) {
 	f := st.Field(i)
